@@ -34,6 +34,7 @@ func c12(c *Ctx) {
 	c12Optional(c)
 	c12ConstFields(c)
 	c12Canonical(c)
+	idZeroRule(c, "C12.idzero", func(rel string) bool { return rel == "keyset" || strings.HasPrefix(rel, "insecurecleartextkeyset") || strings.HasPrefix(rel, "internal/protoserialization") })
 }
 
 // ---------------------------------------------------------------- inverse
@@ -717,6 +718,21 @@ func c12Optional(c *Ctx) {
 				case *ssa.Call:
 					// GetCustomKid().GetValue(): its result must not feed a presence decision (comparison with "")
 					for _, r2 := range *x.Referrers() {
+						// len(GetCustomKid().GetValue()) compared with 0: the same decision by content
+						if lc, isL := r2.(*ssa.Call); isL {
+							if b, isB := lc.Call.Value.(*ssa.Builtin); isB && b.Name() == "len" {
+								for _, r3 := range *lc.Referrers() {
+									if cmp, isCmp := r3.(*ssa.BinOp); isCmp {
+										for _, side := range []ssa.Value{cmp.X, cmp.Y} {
+											if k, isK := guard.ConstInt(side); isK && (k == 0 || k == 1) && side != ssa.Value(lc) {
+												n++
+												r.Bad("C12.optional", fmt.Sprintf("C12.optional/%s/custom kid presence by content", core.FuncID(f)), p.Pos(cmp.Pos()), "presence of the custom kid is decided by the length of its value: a key with an empty custom kid parses back as a key without one")
+											}
+										}
+									}
+								}
+							}
+						}
 						if cmp, isCmp := r2.(*ssa.BinOp); isCmp && (cmp.Op == token.EQL || cmp.Op == token.NEQ) {
 							for _, side := range []ssa.Value{cmp.X, cmp.Y} {
 								if k, isC := side.(*ssa.Const); isC && k.Value != nil && k.Value.Kind() == constant.String && constant.StringVal(k.Value) == "" {
